@@ -20,7 +20,11 @@ def load_corpus():
 
 
 def build_corpus(shards, crates=None, segment=False):
-    pk = sorted(crates) if crates is not None else [f"corpus{i}" for i in range(shards)]
+    if crates is None:
+        # every corpus crate: a binary left over from an earlier build of a different /repo tree must never be executed
+        index = json.load(open(os.path.join(GEN, "corpus_index.json")))
+        crates = {m["crate"] for m in index["modules"]}
+    pk = sorted(crates)
     if segment:
         # ascent's segment-codegen feature (C09): a second configuration, built into its own target directory
         rc, out, d = vlib.cargo_build(pk, features=[f"{c}/segment" for c in pk], target_dir=os.path.join(vlib.BUILD, "target-seg"))
